@@ -88,6 +88,15 @@ class PathWorld:
     def generic_elements(self, ip, it, node):
         return None
 
+    def eval_fstring(self, ip, parts, node):
+        return None
+
+    def truth_of(self, ip, v):
+        return None
+
+    def type_of(self, ip, v):
+        return None
+
     def resolve_name(self, ip, name, node):
         if name in self.functions:
             return FuncRefP(name)
